@@ -120,8 +120,9 @@ func (in *Interp) ufStr(name string, minLen, maxLen int, pred func(*Term) *Term,
 		return v.(*Str)
 	}
 	id := len(in.ufMemo)
-	ln := b.SymBounded(fmt.Sprintf("ufs_%s_%d_len", sanitize(name), id), 64, uint64(minLen), uint64(maxLen))
-	side := []*Term{b.RawULe(b.BV(uint64(minLen), 64), ln), b.RawULe(ln, b.BV(uint64(maxLen), 64))}
+	ln16 := b.SymBounded(fmt.Sprintf("ufs_%s_%d_len", sanitize(name), id), narrowW, uint64(minLen), uint64(maxLen))
+	ln := b.ZExt(ln16, 64)
+	side := []*Term{b.RawULe(b.BV(uint64(minLen), narrowW), ln16), b.RawULe(ln16, b.BV(uint64(maxLen), narrowW))}
 	bs := make([]*Term, maxLen)
 	for i := range bs {
 		bs[i] = b.Sym(fmt.Sprintf("ufs_%s_%d_b%d", sanitize(name), id, i), 8)
@@ -194,13 +195,14 @@ func (in *Interp) drawString(max int) *Str {
 			in.unsupported("draw replay mismatch: want string/%d have %s/%d", max, d.Kind, d.Cap)
 		}
 		in.drawCursor++
-		return in.str.FromSym(&SymStr{Len: d.Syms[0], B: d.Syms[1:]})
+		return in.str.FromSym(&SymStr{Len: b.ZExt(d.Syms[0], 64), B: d.Syms[1:]})
 	}
 	in.drawCursor++
 	n := len(in.draws)
-	ln := b.SymBounded(fmt.Sprintf("d%d_len%d", n, max), 64, 0, uint64(max))
-	in.constrain(b.RawULe(ln, b.BV(uint64(max), 64)))
-	syms := []*Term{ln}
+	ln16 := b.SymBounded(fmt.Sprintf("d%d_len%d", n, max), narrowW, 0, uint64(max))
+	in.constrain(b.RawULe(ln16, b.BV(uint64(max), narrowW)))
+	ln := b.ZExt(ln16, 64)
+	syms := []*Term{ln16}
 	bs := make([]*Term, max)
 	for i := range bs {
 		bs[i] = b.Sym(fmt.Sprintf("d%d_b%d", n, i), 8)
@@ -493,6 +495,29 @@ func harnessAPI(name string) (IntrinsicFn, bool) {
 			}
 			return Sc{e.present}
 		}, true
+	case "verifNewLevelDB":
+		return func(in *Interp, _ *frame, fn *ssa.Function, args []Value, _ tokenPos) Value {
+			et := fn.Signature.Results().At(0).Type().(*types.Pointer).Elem()
+			o := in.newObj(OpaqueV{Tag: "ldb", Data: &ldbModel{}}, et, "leveldb.DB")
+			o.heap = true
+			return PtrV{obj: o}
+		}, true
+	case "verifLevelDBPutIf":
+		return func(in *Interp, _ *frame, fn *ssa.Function, args []Value, pos tokenPos) Value {
+			m := in.ldbOf(args[0], pos)
+			m.slots = append(m.slots, &ldbSlot{key: in.toStrArg(args[1], pos), val: in.toStrArg(args[2], pos), present: args[3].(Sc).T})
+			return nil
+		}, true
+	case "verifLevelDBLen":
+		return func(in *Interp, _ *frame, fn *ssa.Function, args []Value, pos tokenPos) Value {
+			m := in.ldbOf(args[0], pos)
+			b := in.b
+			t := b.BV(0, 64)
+			for _, s := range m.slots {
+				t = b.Add(t, b.Ite(s.present, b.BV(1, 64), b.BV(0, 64)))
+			}
+			return Sc{t}
+		}, true
 	case "verifSymbolic":
 		return func(in *Interp, _ *frame, _ *ssa.Function, _ []Value, _ tokenPos) Value { return Sc{in.b.True} }, true
 	case "verifGhostSet", "verifGhostGet":
@@ -622,6 +647,10 @@ func (in *Interp) externalGlobal(g *ssa.Global, et types.Type) Value {
 	case "time.UTC", "time.Local":
 		o := in.newObj(OpaqueV{Tag: "loc"}, et.(*types.Pointer).Elem(), name)
 		return PtrV{obj: o}
+	}
+	if it, ok := et.Underlying().(*types.Interface); ok && it.NumMethods() == 1 && it.Method(0).Name() == "Error" {
+		// error variables of library packages: one distinct error object each
+		return in.externalError(name)
 	}
 	if os.Getenv("GOSYM_DEBUG") != "" {
 		fmt.Fprintln(os.Stderr, "external global", name)
